@@ -506,3 +506,106 @@ Theorem C12_linear_read_loop_translated : forall size cp pb n0 m acc a nN rest l
 Proof. exact C12_skel_pal.lin_loop. Qed.
 
 Print Assumptions C12_linear_read_loop_translated.
+
+(* ---- palette codecs: the WHOLE translated bodies of linearPalette/hashPalette.ReadFrom and of the four
+   palette WriteTo are interpreted (Proofs/C12_skel_pal2.v, Proofs/C12_skel_wr.v, Proofs/C12_tr2.v) *)
+From GoMC Require Proofs.C12_skel_pal2 Proofs.C12_skel_wr Proofs.C12_tr2.
+
+(* linearPalette.ReadFrom - size read, negative test, `> 1<<bits` test, make or reslice, value loop, return -
+   returns what pal_read returns (palette, count, rest, every error) for every prior palette state and input *)
+Theorem C12_linear_readfrom_translated : forall vals cap pb s fuel,
+  run_flat (pal_read fuel (PLinear vals cap pb)) s <> FFuel ->
+  C12_skel_read.read_result (fst (g_recv C12gen.pal_linearPalette_ReadFrom)) (run_g C12_skel_read.res_env no_set C12gen.pal_linearPalette_ReadFrom
+                                       (VPal (PLinear vals cap pb)) [VReader s])
+  = Some (C12_skel_read.map_fres VPal (run_flat (pal_read fuel (PLinear vals cap pb)) s)).
+Proof. exact C12_tr2.tr_linear_readfrom. Qed.
+
+(* hashPalette.ReadFrom run on a receiver whose map is spelled out (ANY prior map ids0, any prior values): values,
+   capacity, count, rest and errors are pal_read's; the map is NOT cleared - afterwards it is the prior map
+   overlaid with the bindings of the values read *)
+Theorem C12_hash_readfrom_translated : forall ids0 vals cap pb s fuel,
+  run_flat (pal_read fuel (PHash vals cap pb)) s <> FFuel ->
+  C12_skel_read.read_result (fst (g_recv C12gen.pal_hashPalette_ReadFrom)) (run_g C12_skel_read.res_env no_set C12gen.pal_hashPalette_ReadFrom
+                                       (VHashRaw ids0 vals cap pb) [VReader s])
+  = Some (C12_skel_read.map_fres (C12_skel_pal2.raw_over ids0) (run_flat (pal_read fuel (PHash vals cap pb)) s)).
+Proof. exact C12_tr2.tr_hash_readfrom_raw. Qed.
+
+(* the map after a successful read: key -> last index among the values read, else what the PRIOR map held
+   (stale keys survive); from an empty prior map - what create returns - exactly the last-index view of the
+   values read, i.e. the model's PHash.  A reused destination is safe because PaletteContainer.ReadFrom
+   creates the palette it reads into (C12_readfrom_translated2), not because the palette reader resets it *)
+Theorem C12_hash_ids_after_read : forall ids0 vals cap pb s fuel v n rest k,
+  run_flat (pal_read fuel (PHash vals cap pb)) s = FOk (v, n) rest ->
+  exists vs cp, v = PHash vs cp pb /\
+    C12_skel_read.read_result (fst (g_recv C12gen.pal_hashPalette_ReadFrom)) (run_g C12_skel_read.res_env no_set C12gen.pal_hashPalette_ReadFrom
+                                         (VHashRaw ids0 vals cap pb) [VReader s])
+    = Some (FOk (VHashRaw (push_ids 0 vs ids0) vs cp pb, n) rest) /\
+    raw_lookup k (push_ids 0 vs ids0) = match last_index_of k vs 0 with Some j => Some j | None => raw_lookup k ids0 end /\
+    (ids0 = [] -> raw_lookup k (push_ids 0 vs ids0) = last_index_of k vs 0).
+Proof. exact C12_tr2.hash_ids_after_read. Qed.
+
+(* stale keys, concretely: a hashPalette holding [7; 9] reads the palette [3]; afterwards values = [3] and the
+   map still sends 9 to index 1, outside the values *)
+Example C12_ex_hash_stale :
+  C12_skel_read.read_result (fst (g_recv C12gen.pal_hashPalette_ReadFrom)) (run_g C12_skel_read.res_env no_set C12gen.pal_hashPalette_ReadFrom
+                                       (raw_of_pal (PHash [7; 9] 32 5)) [VReader [1; 3]%N])
+  = Some (FOk (VHashRaw [(3, 0); (9, 1); (7, 0)] [3] 32 5, 2%N) []) /\
+  run_flat (pal_read 1 (PHash [7; 9] 32 5)) [1; 3]%N = FOk (PHash [3] 32 5, 2%N) [] /\
+  run_flat (pal_read 1 (PLinear [5] 16 4)) [1; 3]%N <> FFuel.
+Proof. split; [vm_compute; reflexivity|]. split; [vm_compute; reflexivity|]. vm_compute. discriminate. Qed.
+
+(* the translated ReadFrom of the palette's own kind (single / linear / hash started from the model's view of its
+   map / global) IS pal_read on every palette whose hash map is empty and every input *)
+Theorem C12_palette_read_translated : forall fuel p s, C12_tr2.fresh p -> run_flat (pal_read fuel p) s <> FFuel ->
+  C12_tr2.tr_pal_read p s = Some (run_flat (pal_read fuel p) s).
+Proof. exact C12_tr2.tr_pal_read_is_model. Qed.
+
+(* the translated WriteTo of the palette's own kind (length VarInt, range loop over the values; one VarInt; nothing)
+   appends exactly pal_write p to ANY writer content and returns its length, for every palette *)
+Theorem C12_palette_write_translated : forall p w0,
+  C12_skel_wr.tr_pal_write p w0 = Some ((w0 ++ pal_write p)%list, zlen (pal_write p)).
+Proof. exact C12_skel_wr.tr_pal_write_is_model. Qed.
+
+(* PaletteContainer.ReadFrom with the palette read being the INTERPRETED palette reader of the created palette *)
+Theorem C12_readfrom_translated2 : forall fuel used s, run_flat (pc_read fuel used) s <> FFuel ->
+  C12_tr2.tr_read2 used s = Some (run_flat (pc_read fuel used) s).
+Proof. exact C12_tr2.tr_read2_is_pc_read. Qed.
+Theorem C12_writeto_translated2 : forall c, C12_tr2.tr_write2 c = Some (fst (pc_write c)).
+Proof. exact C12_tr2.tr_write2_is_pc_write. Qed.
+
+(* HEADLINE 2, strengthened: the round trip with the palette written by the translated palette WriteTo and read
+   by the translated palette ReadFrom; no fuel parameter is left *)
+Theorem C12_wire_roundtrip_translated2 : forall c used rest, Inv c -> ccfg used = ccfg c ->
+  blen (cdata used) = blen (cdata c) -> (lenN (data (cdata c)) < 2^31)%N ->
+  exists img c', C12_tr2.tr_write2 c = Some img /\
+                 C12_tr2.tr_read2 used (img ++ rest) = Some (FOk (c', lenN img) rest) /\
+                 Inv c' /\ ccfg c' = ccfg c /\ blen (cdata c') = blen (cdata c) /\ pabs c' = pabs c.
+Proof. exact C12_tr2.wire_roundtrip_translated2. Qed.
+
+(* the bodies of the two helpers of New*PaletteContainerWithData (which enter C12_{states,biomes}_with_data_translated
+   as the model's with_cap / resolve_indirect) are interpreted as well (Proofs/C12_skel_cap.v): withCap - make with
+   length and capacity, max, copy - returns the same values with capacity with_cap, for every slice and size;
+   resolveIndirect - bits.Len(uint(len(pat)-1)), both NewBitStorage, the loop direct.Set(i, int(pat[idx.Get(i)]))
+   by induction against resolve_loop, Raw() - IS resolve_indirect on every exit, for every non-empty palette
+   (uint(len(pat)-1) of an empty one wraps in Go: outside the interpreter; the callers pass more than 8 entries) *)
+From GoMC Require Proofs.C12_skel_cap.
+Theorem C12_with_cap_translated : forall pat c0 size,
+  C12_skel_cap.cap_result (run no_set C12gen.pal_withCap VNil [VSlice pat c0; VZ size]) = Some (pat, with_cap pat size).
+Proof. exact C12_skel_cap.tr_with_cap. Qed.
+Theorem C12_resolve_indirect_translated : forall n d pat c0 g, pat <> [] ->
+  C12_skel_cap.ri_result (run no_set C12gen.pal_resolveIndirect VNil [VZ n; VData d; VSlice pat c0; VZ g])
+  = Some (resolve_indirect n d pat g).
+Proof. exact C12_skel_cap.tr_resolve_indirect. Qed.
+Example C12_ex_resolve_nonempty : [7; 9] <> ([] : list Z) /\ C12_tr2.fresh (cfg_create (mkCfg KStates 15) 6).
+Proof. split; [discriminate|reflexivity]. Qed.
+
+Print Assumptions C12_linear_readfrom_translated.
+Print Assumptions C12_hash_readfrom_translated.
+Print Assumptions C12_hash_ids_after_read.
+Print Assumptions C12_palette_read_translated.
+Print Assumptions C12_palette_write_translated.
+Print Assumptions C12_readfrom_translated2.
+Print Assumptions C12_writeto_translated2.
+Print Assumptions C12_wire_roundtrip_translated2.
+Print Assumptions C12_with_cap_translated.
+Print Assumptions C12_resolve_indirect_translated.
